@@ -30,7 +30,8 @@ def extra_builds(tier):
 
 def bounds(tier):
     return {"oneshot_shapes": list(SHAPES), "incremental_aad_bytes": 67 if tier == "thorough" else 33,
-            "incremental_data_bytes": 260 if tier == "thorough" else 130, "fork_tree_depth": 6 if tier == "thorough" else 5}
+            "incremental_data_bytes": 260 if tier == "thorough" else 130, "fork_tree_depth": 6 if tier == "thorough" else 5,
+            "every_length": "plaintext 0..=200 (AAD 0, 13), AAD 0..=80", "components": "C05 limb steering / corner / crafted inputs; C03 counter-bit and seek shards"}
 
 
 def validate_models(tier):
